@@ -14,7 +14,7 @@ import re
 import sys
 
 sys.path.insert(0, os.path.dirname(os.path.abspath(__file__)))
-from gen_stdout_sites import strip, test_ranges, enclosing_fn  # noqa: E402
+from gen_stdout_sites import strip, test_ranges, enclosing_fn, hook_gated_files  # noqa: E402
 
 VERIF = os.path.dirname(os.path.dirname(os.path.abspath(__file__)))
 REPO = os.environ.get("CTEVERIF_SRC", "/repo")      # overridden only to try the translator on a scratch copy
@@ -46,6 +46,7 @@ def main():
         if not os.path.isdir(root):
             problems.append(f"missing source directory {root}")
             continue
+        gated = hook_gated_files(root)
         for dp, _, fns in os.walk(root):
             rel = os.path.relpath(dp, root)
             if any(crate == c and (rel == d or rel.startswith(d + "/")) for c, d in SKIP_DIRS):
@@ -54,6 +55,8 @@ def main():
                 if not fn.endswith(".rs"):
                     continue
                 path = os.path.join(dp, fn)
+                if path in gated:
+                    continue
                 src = strip(open(path, encoding="utf-8", errors="replace").read())
                 tr = test_ranges(src)
                 lines = src.splitlines()
